@@ -268,6 +268,12 @@ def mem_spec(op):
         es = [k for k, c in enumerate(body) if c in b"eE"]
         ok = (tail.strip(MEM_WS) == b"" and any(48 <= c <= 57 for c in body) and body.count(b".") <= 1 and len(es) <= 1
               and not (es and b"." in body[es[0]:]))
+        if MEM_STATE["isreal_strict"]:
+            # the repaired code: only digits, '.', 'e'/'E', and a sign directly after the e/E
+            for k, c in enumerate(body):
+                if 48 <= c <= 57 or c in b".eE": continue
+                if c in b"+-" and es and k == es[0] + 1: continue
+                ok = False
         return "r=%d" % ok
     if name == "memstrdup": return "ok null" if p is None else "ok " + hx(p + b"\x00")
     if name == "memstrcpy": return "ok " + hx(p + b"\x00")
@@ -385,6 +391,33 @@ def mem_cases(rng, quick):
 
 
 K_ISREAL = "C05:mem:isreal-accepts-garbage"
+MEM_STATE = {"isreal_strict": False}
+
+
+def mem_generated(ctx):
+    """EaselModel/Buffer/MemConsts.lean from esl_mem.c of the working tree: does esl_mem_IsReal reject garbage bytes (the proposed repair) or
+    step over them (the code as it is)? The executable model, the python oracle and the known-finding witness follow the tree."""
+    import os, re
+    src = open(os.path.join(ctx.src, "esl_mem.c")).read()
+    m = re.search(r"\nesl_mem_IsReal\(const char \*p, esl_pos_t n\)\n\{(.*?)\n\}\n", src, re.S)
+    if not m or "isspace((int) (*p))) break;" not in m.group(1):
+        raise RuntimeError("esl_mem_IsReal: the scan loop is not of the modelled shape (props/c05.py: mem_generated)")
+    body = m.group(1)
+    tail = body[body.index("isspace((int) (*p))) break;"):]
+    strict = re.search(r"\belse\s+return\s+FALSE\s*;", tail.split("p++;")[0]) is not None
+    if strict and "p[-1]" not in tail.split("p++;")[0]:
+        raise RuntimeError("esl_mem_IsReal was repaired in a way the model does not know (no exponent-sign branch): update Mem.realLoopS")
+    MEM_STATE["isreal_strict"] = strict
+    txt = """/-! GENERATED by props/c05.py `mem_generated` from esl_mem.c of the working tree — do not edit. -/
+namespace EaselModel.Buffer.Mem.MemConsts
+
+/-- `esl_mem_IsReal`'s scan loop ends in `else return FALSE` (true: garbage bytes are rejected, the repaired code) or steps over
+    every byte that is no digit, '.', 'e', 'E' or blank (false: the code as it is; known finding C05:mem:isreal-accepts-garbage) -/
+def isRealStrict : Bool := %s
+
+end EaselModel.Buffer.Mem.MemConsts
+""" % ("true" if strict else "false")
+    return {"EaselModel/Buffer/MemConsts.lean": txt}
 
 
 def mem_isreal_documented(b):
@@ -801,10 +834,13 @@ class C05(Prop):
                    "the st_blksize clamp is tied only at the sandbox's block size (4096), otherwise held by the regenerated constants (OpenConsts.lean); allocation/popen/fstat failures not modelled",
                    "known genuine defects (see known_findings.d/C05.json): stable-anchor realloc (redesign-size fix proposed: C05-stable-anchor-keep-oldmem.patch), esl_buffer_Open .gz test indexes filename with strlen(path) (C05-open-gz-suffix.patch), Read of 0 bytes on an empty slurped file = memcpy(p, NULL, 0) (C05-read-zero-bytes-null-mem.patch)"]
     level_text = level_text + " " + MEM_LEVEL_TEXT; assumptions = assumptions + MEM_ASSUMPTIONS; trusted_base = trusted_base + MEM_TRUSTED   # round4-mem
-    rule = ("case = one opening (mode, page size, input bytes) + a history of <= 200 operations valid under the API contract, generated by simulating the abstract specification; "
-            "the same (input, history) is run under 3 configurations; non-trivial = at least one operation returned bytes; distinct by implementation output trace")
+    rule = ("case = one opening (mode, page size, input bytes) + a history of <= 200 operations; three families: (1) histories valid under the API contract, generated by simulating the abstract specification, "
+            "the same (input, history) run under 3 configurations and monitored per operation against the python copy of the specification; (2) 'wild' histories with arbitrary arguments (rewinds with/without anchor, offsets at/after the end, "
+            "anchors anywhere incl. ahead of the cursor, Set up to and beyond the exposed bytes - the latter answered 'unsafe' by both sides), compared exactly and, in the whole-input modes, monitored against the total specification memStep; "
+            "(3) fsopen cases: a real directory tree + environment variable, esl_buffer_Open's choice compared with the model, followed by a valid history; plus stateless esl_mem ops (50 per case) against model and python oracle; "
+            "non-trivial = at least one operation returned bytes; distinct by implementation output trace")
 
-    def generated(self, ctx): return open_generated(ctx)   # round4-open
+    def generated(self, ctx): return {**open_generated(ctx), **mem_generated(ctx)}   # round4-open, round4-mem
 
     # ------------------------------------------------------------------ inputs
     def gen_edge_input(self, rng, ps):
